@@ -29,7 +29,8 @@ type scaseT struct {
 	Batch bool `json:",omitempty"`
 	// Volume > 0: no concurrency at all — StartBuffering, Volume records from one goroutine, FlushBuffer
 	// (a start-up that logs a lot before the banner)
-	Volume int `json:",omitempty"`
+	Volume int  `json:",omitempty"`
+	Source bool `json:",omitempty"` // logging.WithSource(true)
 	Seed   uint64
 }
 
@@ -93,7 +94,11 @@ func runsOf(seqs []int) []runT {
 func runStress(k scaseT) (logged []int, runs [][]runT, cycles int) {
 	r := hx.NewRand(k.Seed)
 	out := &lockedBuf{}
-	l, err := logging.New(logging.WithJSONHandler(), logging.WithOutput(out))
+	lopts := []logging.Option{logging.WithJSONHandler(), logging.WithOutput(out)}
+	if k.Source {
+		lopts = append(lopts, logging.WithSource(true))
+	}
+	l, err := logging.New(lopts...)
 	if err != nil {
 		panic(err)
 	}
@@ -227,7 +232,7 @@ func emitStress(id string, k scaseT, st *hx.Stats) string {
 }
 
 func genStress(r *hx.Rand, millis int) scaseT {
-	k := scaseT{G: hx.Pick(r, []int{1, 2, 3, 4}), Millis: millis, SetLevel: r.Chance(1, 2), Batch: r.Chance(1, 3), Seed: r.U64() >> 1}
+	k := scaseT{G: hx.Pick(r, []int{1, 2, 3, 4}), Millis: millis, SetLevel: r.Chance(1, 2), Batch: r.Chance(1, 3), Source: r.Chance(1, 3), Seed: r.U64() >> 1}
 	for g := 0; g < k.G; g++ {
 		k.Derived = append(k.Derived, r.Chance(1, 3))
 	}
